@@ -442,6 +442,11 @@ class Engine:
         elif k == 'sqrt':
             x = self.peval(v['info'])
             r = _num_sqrt(x)
+        elif k == 'isqrt':
+            x = self.value(v['info'])
+            if x == 0:
+                raise _Ambiguous()
+            r = _num_div(Fraction(1), x) if isinstance(x, Fraction) else 1 / x
         elif k == 'quo':
             n, d = self.peval(v['info'][0]), self.peval(v['info'][1])
             if d == 0:
@@ -660,6 +665,18 @@ class Engine:
         self.assume_z(z3.And(z >= 0, z * z == self.pz(rad)), keeps_assignment=True)
         return vid
 
+    def isqrt_atom(self, svid):
+        """1/r for a sqrt atom r (r != 0 on the path): atom ir with ir * r == 1; products ir*r are rewritten to 1"""
+        k = ('isqrt', svid)
+        if k in self.div_memo:
+            return self.div_memo[k]
+        vid = self.new_var('isqrt', 'isqrt', svid)
+        self.div_memo[k] = vid
+        self.vars[svid]['inv'] = vid
+        z = self.vars[vid]['z']
+        self.assume_z(z3.And(z * self.vars[svid]['z'] == 1, z > 0), keeps_assignment=True)
+        return vid
+
     def div_atom(self, num, den):
         k = (num.key(), den.key())
         if k in self.div_memo:
@@ -714,13 +731,28 @@ class Engine:
         return p
 
     def _reduce(self, m):
-        """if monomial m contains a sqrt atom to a power >= 2, return the equivalent reduced Poly"""
+        """if monomial m contains a sqrt atom to a power >= 2 (r^2 -> radicand) or a sqrt atom together with its
+        inverse atom (ir*r -> 1), return the equivalent reduced Poly"""
         for idx, (v, e) in enumerate(m):
-            if e >= 2 and self.vars[v]['kind'] == 'sqrt':
+            kind = self.vars[v]['kind']
+            if e >= 2 and kind == 'sqrt':
                 rad = self.vars[v]['info']
                 rest = list(m[:idx]) + ([(v, e - 2)] if e > 2 else []) + list(m[idx + 1:])
                 rest = tuple(rest)
-                return self.pmul(Poly({rest: Fraction(1)}), rad)
+                rr = self._reduce(rest)
+                if rr is None:
+                    rr = Poly({rest: Fraction(1)})
+                return self.pmul(rr, rad)
+            if kind == 'isqrt':
+                r = self.vars[v]['info']
+                for jdx, (w, f) in enumerate(m):
+                    if w == r:
+                        d = dict(m)
+                        d[v] -= 1
+                        d[w] -= 1
+                        rest = tuple(sorted((a, b) for a, b in d.items() if b > 0))
+                        red = self._reduce(rest)
+                        return red if red is not None else Poly({rest: Fraction(1)})
         return None
 
 
@@ -1118,25 +1150,148 @@ def _div(num, den):
             c = num.t[m0] / den.t[m0]
             if not num.add(den.scale(-c)).t:
                 return _collapse(c)
-    # division by c*r (r a sqrt atom with radicand x):  n/(c r) = n r/(c x)
+    # division by a monomial c*r1*r2*.. of sqrt atoms: multiply by the inverse atoms (ir*r rewrites to 1); an atom with a
+    # constant radicand f is inverted as r/f
     if len(den.t) == 1:
         (m, c), = den.t.items()
-        if len(m) == 1 and m[0][1] == 1 and e.vars[m[0][0]]['kind'] == 'sqrt':
-            rad = e.vars[m[0][0]]['info']
-            n2 = e.pmul(num, Poly.var(m[0][0]))
-            return _div(n2, rad.scale(c))
+        if m and all(ex == 1 and e.vars[v]['kind'] == 'sqrt' for v, ex in m):
+            res = num.scale(1 / c)
+            for v, ex in m:
+                rad = e.vars[v]['info']
+                if rad.is_const():
+                    res = e.pmul(res, Poly.var(v)).scale(1 / rad.const_value())
+                else:
+                    res = e.pmul(res, Poly.var(e.isqrt_atom(v)))
+            return _wrap(res)
     vid = e.div_atom(num, den)
     return SymNum(Poly.var(vid))
 
 
-def sym_sqrt(x):
+def _square_form(p):
+    """if p == a * L^2 with L an affine form in the engine variables (a rational, L Poly of degree 1), return (a, L)"""
+    if p.degree() != 2:
+        return None
+    vs = sorted(p.vars())
+    idx = {v: i for i, v in enumerate(vs)}
+    n = len(vs)
+    M = [[Fraction(0)] * (n + 1) for _ in range(n + 1)]      # homogenised symmetric matrix, last index = constant
+    for m, c in p.t.items():
+        if len(m) == 0:
+            M[n][n] += c
+        elif len(m) == 1 and m[0][1] == 1:
+            i = idx[m[0][0]]
+            M[i][n] += c / 2
+            M[n][i] += c / 2
+        elif len(m) == 1 and m[0][1] == 2:
+            i = idx[m[0][0]]
+            M[i][i] += c
+        elif len(m) == 2 and m[0][1] == 1 and m[1][1] == 1:
+            i, j = idx[m[0][0]], idx[m[1][0]]
+            M[i][j] += c / 2
+            M[j][i] += c / 2
+        else:
+            return None
+    piv = next((i for i in range(n) if M[i][i] != 0), None)
+    if piv is None:
+        return None
+    a = M[piv][piv]
+    l = [M[piv][j] / a for j in range(n + 1)]               # L = sum l_j x_j + l_n, with l_piv = 1
+    for i in range(n + 1):
+        for j in range(n + 1):
+            if M[i][j] != a * l[i] * l[j]:
+                return None
+    L = {}
+    for j in range(n):
+        if l[j]:
+            L[((vs[j], 1),)] = l[j]
+    if l[n]:
+        L[()] = l[n]
+    return a, Poly(L)
+
+
+def _strip_isqrt(p):
+    """if every monomial of p contains the same inverse-sqrt atom squared, return (P, radicand) with p == P / radicand"""
+    e = ENG
+    cand = None
+    for m in p.t:
+        hit = [v for v, ex in m if ex == 2 and e.vars[v]['kind'] == 'isqrt']
+        if len(hit) != 1:
+            return None
+        if cand is None:
+            cand = hit[0]
+        elif cand != hit[0]:
+            return None
+    if cand is None:
+        return None
+    P = Poly({tuple(x for x in m if x[0] != cand): c for m, c in p.t.items()})
+    return P, e.vars[e.vars[cand]['info']]['info']
+
+
+def _squarefree_split(n):
+    """n = s*s*f with f squarefree (trial division; n a positive int of moderate size)"""
+    s, f = 1, 1
+    d = 2
+    while d * d <= n and d < 200000:
+        e = 0
+        while n % d == 0:
+            n //= d
+            e += 1
+        if e:
+            s *= d ** (e // 2)
+            if e % 2:
+                f *= d
+        d += 1 if d == 2 else 2
+    import math
+    r = math.isqrt(n)
+    if r * r == n:
+        s *= r
+    else:
+        f *= n
+    return s, f
+
+
+def sym_sqrt(x, force_atom=False):
     if not isinstance(x, SymNum):
+        if force_atom:
+            fr = Fraction(x)
+            if fr < 0:
+                raise ValueError('math domain error')
+            if fr == 0:
+                return 0.0
+            # sqrt(p/q) = sqrt(p*q)/q = s*sqrt(f)/q with f squarefree: commensurable constants share one atom
+            sfac, f = _squarefree_split(fr.numerator * fr.denominator)
+            coef = Fraction(sfac, fr.denominator)
+            if f == 1:
+                return _collapse(coef)
+            return coef * SymNum(Poly.var(ENG.sqrt_atom(Poly.const(Fraction(f)))))
         return _math_sqrt(x)
     if bool(x < 0):
         raise ValueError('math domain error')
     e = ENG
-    # perfect-square monomial c*v^2 etc. are left to the solver; memo by radicand
-    vid = e.sqrt_atom(x.p)
+    p = x.p
+    st = _strip_isqrt(p)
+    if st is not None:
+        # p = P * ir^2 = P / rad ; the common case P == c * rad (a normalised vector normalised again) gives sqrt(c)
+        P, rad = st
+        if P.t and len(P.t) == len(rad.t):
+            m0 = max(rad.t)
+            if m0 in P.t:
+                c = P.t[m0] / rad.t[m0]
+                if c > 0 and not P.add(rad.scale(-c)).t:
+                    return sym_sqrt(c, force_atom=True)
+    sf = _square_form(p)
+    if sf is not None and sf[0] > 0:
+        # sqrt(a * L^2) = sqrt(a) * |L| : exact, and linear in the parameters
+        a, L = sf
+        ra = sym_sqrt(a, force_atom=True)
+        Ls = SymNum(L)
+        return ra * (Ls if bool(Ls >= 0) else -Ls)
+    # factor the content out so that proportional radicands share one atom: sqrt(c * rho) = sqrt(c) * sqrt(rho)
+    c = _real_abs(p.lead())
+    if c != 1:
+        rho = p.scale(1 / c)
+        return sym_sqrt(c, force_atom=True) * SymNum(Poly.var(e.sqrt_atom(rho)))
+    vid = e.sqrt_atom(p)
     return SymNum(Poly.var(vid))
 
 
